@@ -47,7 +47,11 @@ def _funcs():
 # leaf families
 
 BOOL_LIKE = ["true", "false", "True", "FALSE", "tRuE", " true", "true ", "yes", "no", "on", "off", "1", "0", "t", "f", "y", "n",
-             "TRUE", "Yes", "ON", "T", "01", "truee", "tru", "false.", '"true"', "true\n", "Truе"]
+             "TRUE", "Yes", "ON", "T", "01", "truee", "tru", "false.", '"true"', "true\n", "Truе",
+             # texts that only a Unicode case FOLDING or a compatibility normalisation turns into true / false (seeded change
+             # C18-r7Fm1: casefold() instead of lower()): long s, fullwidth letters, a combining mark, the Kelvin-sign trick's cousins
+             "fal\u017fe", "FAL\u017fE", "\uff54\uff52\uff55\uff45", "\uff26\uff21\uff2c\uff33\uff25", "true\u0301", "tru\u00e9", "FALSE\u200b",
+             "\u24e3\u24e1\u24e4\u24d4"]
 INT_LIKE = ["0", "7", "42", "-5", "+5", "007", "00", "-0", "1_000", "1__0", "_1", "1_", " 5", "5 ", "\t5\n", "1e3", "1E3", "+1e3", "5e-1",
             "0x10", "0b1", "0o7", "١٢", "１２", "9223372036854775807", "9223372036854775808", "-9223372036854775809",
             str(2 ** 70), "1,000", "1 000", "--5", "+-5", "5-", "²", "+5.0", "5.00", "12345678901234567890123"]
